@@ -202,6 +202,7 @@ func attemptCheck(r *vrt.Result) string {
 	var cancelledAt int64
 	cancelledClock, closedClock := -1, -1
 	closed := false
+	ctxErrAtClose := true
 	returnedLen := -1
 	for _, e := range r.Events {
 		switch e.Kind {
@@ -224,6 +225,9 @@ func attemptCheck(r *vrt.Result) string {
 			}
 		case "closed":
 			closed = true
+			if len(e.Args) > 1 {
+				ctxErrAtClose = e.Args[1].(bool)
+			}
 		case "closed-model":
 			if closedClock < 0 {
 				closedClock = e.Int(0)
@@ -231,7 +235,12 @@ func attemptCheck(r *vrt.Result) string {
 		}
 	}
 	_ = pace
-	if cmode == 1 {
+	if cmode == 5 && returnedLen == 0 {
+		// the deadline expired (early timer events) before LinearAttempt looked at the context
+		if len(recvT) != 0 {
+			return "precancelled-not-empty: the channel was returned empty (expired context) but later yielded values"
+		}
+	} else if cmode == 1 || cmode == 4 {
 		if returnedLen != 0 || len(recvT) != 0 {
 			return "precancelled-not-empty: with an already cancelled context the channel must be closed and empty"
 		}
@@ -249,8 +258,11 @@ func attemptCheck(r *vrt.Result) string {
 			return "timestamps-decrease: the received timestamps are not non-decreasing"
 		}
 	}
-	if cancelledAt == 0 && len(recvT) != count {
+	if cancelledAt == 0 && cmode != 5 && len(recvT) != count {
 		return fmt.Sprintf("too-few: %d values received without cancellation, count %d", len(recvT), count)
+	}
+	if len(recvT) < count && !ctxErrAtClose {
+		return fmt.Sprintf("closed-early: the channel was closed after %d of %d values although the context was still live", len(recvT), count)
 	}
 	if cancelledAt != 0 {
 		after := 0
